@@ -181,6 +181,16 @@ func (e *Enc) implementers(it types.Type, m *types.Func) []types.Type {
 	return out
 }
 
+// declaredInRoots: the (named) type is declared in one of the packages under verification.
+func (e *Enc) declaredInRoots(t types.Type) bool {
+	nt, ok := t.(*types.Named)
+	if !ok || nt.Obj() == nil || nt.Obj().Pkg() == nil {
+		return false
+	}
+	_, ok = e.P.Roots[nt.Obj().Pkg().Path()]
+	return ok
+}
+
 // dispatchInvoke: interface method call with unknown dynamic type, split over the candidate implementations.
 func (e *Enc) dispatchInvoke(fr *Frame, st *State, cc *ssa.CallCommon, recv *Val, args []*Val, cands []types.Type, key string, rt types.Type, hint string, pos token.Pos) *Val {
 	var sts []*State
@@ -200,10 +210,31 @@ func (e *Enc) dispatchInvoke(fr *Frame, st *State, cc *ssa.CallCommon, recv *Val
 		}
 		sts, conds, ress = append(sts, b), append(conds, b.reach), append(ress, r)
 	}
-	d := st.clone()
-	d.reach = e.nameBool(hint+"!dynother", and(append([]string{st.reach}, others...)...))
-	r := e.defaultCall(fr, d, key, append([]*Val{recv}, args...), rt, hint+"!dx", pos)
-	sts, conds, ress = append(sts, d), append(conds, d.reach), append(ress, r)
+	if e.declaredInRoots(cc.Value.Type()) {
+		// the interface is declared in a package under verification: its implementations are the ones found there. That the
+		// dynamic type is one of them is an OBLIGATION of the caller (never assumed silently); under it no unknown callee
+		// remains. (Havocking everything on an "other type" branch would make every heap component of the function a
+		// written one.)
+		var isOne []string
+		for _, o := range others {
+			isOne = append(isOne, not(o))
+		}
+		g := or(isOne...)
+		e.addObl(&Obligation{Name: e.site(fr, "call:"+fr.curCallClass, pos) + ":known_dynamic_type", Kind: "requires", Label: "", Clause: "the dynamic type of the receiver of " + key + " is one of its implementations in the packages under verification", Reach: st.reach, Goal: g, Pos: e.posStr(pos)})
+		e.assume(st, g)
+	} else {
+		d := st.clone()
+		d.reach = e.nameBool(hint+"!dynother", and(append([]string{st.reach}, others...)...))
+		r := e.defaultCall(fr, d, key, append([]*Val{recv}, args...), rt, hint+"!dx", pos)
+		sts, conds, ress = append(sts, d), append(conds, d.reach), append(ress, r)
+	}
+	if len(sts) == 0 {
+		st.reach = "false"
+		if rt == nil {
+			return &Val{}
+		}
+		return e.zeroVal(rt)
+	}
 	m := e.mergeStates(hint+"!dyn", sts, conds)
 	*st = *m
 	if rt == nil {
